@@ -86,10 +86,7 @@ theorem C02_gradient_rows : ∀ (ds : List (Dim α)) (xs : List α) (cs : List N
           rw [this]
 
 
-/-- derivative bitmask a gradient lane corresponds to: lane 0 = value, lane `1+d` = `1<<d` -/
-def laneMask : Nat → Nat
-  | 0 => 0
-  | l+1 => 2 ^ l
+-- `laneMask` (derivative bitmask of a gradient lane: lane 0 = value, lane `1+d` = `1<<d`) is defined in `PsV.Model.DerivAbs`
 
 /-- **Every gradient lane is the corresponding scalar evaluation, operation for operation** — for
 every arithmetic (so bit for bit in IEEE): `ndsplineeval_gradient` returns
